@@ -33,32 +33,40 @@ def pegAdmissible (h : SM) (col : Nat) : List Nat :=
 /-- run PEG with a given sequence of random picks (one per inserted edge, column by column, `wc` per column);
 `none` = not a run of the algorithm (a pick outside the admissible set, or too few picks) -/
 def pegRun (wc ncols : Nat) : SM → Nat → Nat → List Nat → Option SM
-  | h, col, left, picks =>
-    if col ≥ ncols then (if picks.isEmpty then some h else none) else
-    match left with
-    | 0 => pegRun wc ncols h (col + 1) wc picks
-    | left + 1 =>
-      match picks with
-      | [] => none
-      | r :: rest =>
-        if (pegAdmissible h col).contains r then
-          match h.insert r col with
-          | some h' => pegRun wc ncols h' col left rest
-          | none => none
-        else none
-termination_by _ col left _ => (ncols - col, left)
+  | h, col, left, [] =>
+    -- no picks left: all columns must be complete
+    if col ≥ ncols || (left == 0 && col + 1 ≥ ncols) then some h else none
+  | h, col, left, r :: rest =>
+    -- `for col in 0..ncols { for _ in 0..wc { insert_edge(col) } }`: move on to the next column when this one is complete
+    let col := if left = 0 then col + 1 else col
+    let left := if left = 0 then wc else left
+    if col ≥ ncols || left == 0 then none
+    else if (pegAdmissible h col).contains r then
+      match h.insert r col with
+      | some h' => pegRun wc ncols h' col (left - 1) rest
+      | none => none
+    else none
 
 def peg (nrows ncols wc : Nat) (picks : List Nat) : Option SM :=
   if wc = 0 then (if picks.isEmpty then some (SM.new nrows ncols) else none)
   else pegRun wc ncols (SM.new nrows ncols) 0 wc picks
 
-/-- validator for a finished PEG matrix: replay the per-column insertion order read off the column lists -/
+/-- replay of one column for the validator: its rows in insertion order, each admissible (and not yet adjacent) when inserted -/
+def pegReplayCol (col : Nat) : SM → List Nat → Option SM
+  | h, [] => some h
+  | h, r :: rest =>
+    if (pegAdmissible h col).contains r && !(h.has r col) then
+      match h.insert r col with
+      | some h' => pegReplayCol col h' rest
+      | none => none
+    else none
+
+/-- validator for a finished PEG matrix: replay the per-column insertion order read off the column lists; every
+column must have `min wc nrows` entries (once all rows are adjacent the remaining picks re-insert an adjacent row, a no-op) -/
 def pegAccepts (nrows ncols wc : Nat) (H : SM) : Bool :=
   H.nrows == nrows && H.ncols == ncols &&
-  (let picks := (List.range ncols).flatMap (fun c =>
-      -- when wc > nrows the surplus picks re-insert an adjacent row (no-op): any row is admissible then; replay the first one
-      H.col c ++ List.replicate (wc - (H.col c).length) ((H.col c).headD 0))
-   match peg nrows ncols wc picks with
+  (match (List.range ncols).foldlM (fun h c =>
+      if (H.col c).length == min wc nrows then pegReplayCol c h (H.col c) else none) (SM.new nrows ncols) with
    | some H' => H' == H
    | none => false)
 
